@@ -165,9 +165,12 @@ func newSess(ctx *core.Ctx, bin string, wid int) *sess {
 		ss.dead = true
 		return ss
 	}
-	if ss.ep != nil {
-		ss.ep.DropRedeliveries(true)
+	if ss.ep, err = notif.NewEndpoint(); err != nil {
+		ctx.Inconclusive("endpoint: " + err.Error())
+		ss.dead = true
+		return ss
 	}
+	ss.ep.DropRedeliveries(true)
 	return ss
 }
 
